@@ -1,6 +1,7 @@
 package lib
 
 import (
+	"encoding/json"
 	"fmt"
 	"math/big"
 	"math/rand"
@@ -1066,7 +1067,7 @@ func EvalLeafref(o *Obs, leafPath []PathElem, lpath string) []string {
 	seen := map[string]bool{}
 	var out []string
 	for _, l := range o.Leaves {
-		if l.IsList || len(l.Elems) != len(cur) {
+		if len(l.Elems) != len(cur) {
 			continue
 		}
 		ok := true
@@ -1100,6 +1101,18 @@ func EvalLeafref(o *Obs, leafPath []PathElem, lpath string) []string {
 			if !ok {
 				break
 			}
+		}
+		if ok && l.IsList {
+			// a leaf-list target contributes each of its entries
+			var vs []string
+			json.Unmarshal([]byte(l.Val), &vs)
+			for _, v := range vs {
+				if !seen[v] {
+					seen[v] = true
+					out = append(out, v)
+				}
+			}
+			continue
 		}
 		if ok && !seen[l.Val] {
 			seen[l.Val] = true
